@@ -124,13 +124,18 @@ def cmdM (arg : Str) : String :=
 /-- a `[mypy]` section given as raw `key=value` lines: keys are resolved by the model of `parse_section`;
     Boolean values and the two error-code lists are converted, other keys are out of this command's scope -/
 def iniChanges (x : Str) : Changes :=
-  (splitNE ',' x).filterMap (fun kv =>
+  -- `results[options_key] = v` in file order: a later line for the same option overwrites an earlier one
+  (splitNE ',' x).foldl (fun acc kv =>
     let p := parseKV kv
-    match resolveKey genTemplate p.1 with
-    | .sets k true inv => (parseBool p.2).map (fun b => (k, Val.bool (if inv then !b else b)))
-    | .sets k false _ =>
-      if k == kDisable || k == kEnable then some (k, Val.list (splitNE '+' p.2)) else none
-    | _ => none)
+    let one : Option (Str × Val) :=
+      match resolveKey genTemplate p.1 with
+      | .sets k true inv => (parseBool p.2).map (fun b => (k, Val.bool (if inv then !b else b)))
+      | .sets k false _ =>
+        if k == kDisable || k == kEnable then some (k, Val.list (splitNE '+' p.2)) else none
+      | _ => none
+    match one with
+    | some kv' => dictUpdate acc [kv']
+    | none => acc) []
 
 def cmdP (arg : Str) : String :=
   match splitC '|' arg with
